@@ -108,6 +108,8 @@ def main():
     ap.add_argument('--only')
     ap.add_argument('--replay')
     ap.add_argument('--shard', default='0/1')
+    ap.add_argument('--cex', help='replay file of a failed obligation: run the replayer of --item on its concretised counter-model')
+    ap.add_argument('--item')
     ap.add_argument('--test', help='run exactly this native test (item.name); the driver runs the tests of a property side by side')
     a = ap.parse_args()
     replay_test = None
@@ -124,6 +126,20 @@ def main():
     real_stdout = sys.stdout
     try:
         mod = importlib.import_module('contracts.' + a.prop)
+        if a.cex:
+            rec = json.load(open(a.cex))
+            item = next(i for i in mod.ITEMS if i.name == a.item)
+            h.cur = 'cex:%s' % rec.get('obligation')
+            buf = io.StringIO()
+            try:
+                with contextlib.redirect_stdout(buf):
+                    r = item.replay(h, rec.get('counterexample') or {}, rec.get('obligation') or '')
+                if r == 'not-concretisable':
+                    out.setdefault('skipped', []).append(dict(test=h.cur, reason='counter-model not concretisable for this obligation'))
+            except (KeyError, IndexError, TypeError, ValueError, AttributeError, ImportError) as e:
+                # the counter-model does not have the shape the replayer expects (e.g. abstract objects): not a failing input
+                out.setdefault('skipped', []).append(dict(test=h.cur, reason='replayer could not build the input: %s: %s' % (type(e).__name__, e)))
+            mod = type('M', (), {'ITEMS': []})
         for item in mod.ITEMS:
             nat = getattr(item, 'native', None)
             if nat is None:
@@ -154,6 +170,12 @@ def main():
                     # the test names a function / class of the library that the current source no longer has under that
                     # name (rename, move): the bounded test cannot be mapped onto the code -> skipped, reported as undecided
                     out.setdefault('skipped', []).append(dict(test=full, reason='HARNESS-MAPPING %s' % e))
+                except AttributeError as e:
+                    if str(e).startswith("module 'dataflows") or str(e).startswith("type object '"):
+                        # `module.function` / `Class.method` named by the test is gone (rename, inlined, moved): as ImportError
+                        out.setdefault('skipped', []).append(dict(test=full, reason='HARNESS-MAPPING %s' % e))
+                    else:
+                        out['crashed'] = 'exception in native test %s:\n%s' % (full, traceback.format_exc()[-2500:])
                 except Exception:
                     out['crashed'] = 'exception in native test %s:\n%s' % (full, traceback.format_exc()[-2500:])
     except Exception:
